@@ -19,10 +19,12 @@
 (* password tried, one item observed.  Known deviations of the code from   *)
 (* the standard are named switches in Dev; with Dev = {} the machine is    *)
 (* the intended design and the invariants hold without excuses.            *)
+(* Both machines are explored in one run (Dev is chosen by Init).          *)
 (***************************************************************************)
 EXTENDS Integers, Sequences, FiniteSets, TLC, Json
 
-CONSTANTS Dev,       \* deviations modelled as coded (subset of AllDev)
+CONSTANTS DevSets,   \* sets of deviations to explore: {{}} = intended design only; {{}, D} = intended design and the
+                     \* machine as coded (D = deviations listed as known findings), side by side in one run
           Configs,   \* set of [V, R, keylen, cfm, em, perms, id, form, encplace]
           PwPairs,   \* set of <<user password class, owner password class | "same">>
           Tried,     \* password classes tried by the reader
@@ -34,15 +36,16 @@ AllDev == {"AESKeepsPadding",            \* decrypt_aes128/256 return the PKCS#7
            "SaslprepErrorEscapes",       \* R6: saslprep raises PDFValueError on prohibited characters
            "SaslprepEmptyIndexError",    \* R6: saslprep indexes data[0] after mapping everything to nothing
            "ImplicitIdentityKeyError"}   \* V4 without StmF/StrF (default Identity): KeyError 'StmF'
-ASSUME Dev \subseteq AllDev
+ASSUME \A D \in DevSets : D \subseteq AllDev
+CodedDev == UNION DevSets        \* the largest set explored: terminal states of that machine are printed for the replay
 
-VARIABLES cfg, upw, opw, tried, item,      \* chosen by Init, constant afterwards
+VARIABLES cfg, Dev, upw, opw, tried, item, \* chosen by Init, constant afterwards (Dev: the deviations in force)
           phase, handler, pwb, key, outcome, perms,
           cur,       \* the body object being fetched: [n, g, stream, type, hasdec, sid]
           val,       \* symbolic value of the item: [enc: remaining layers, spur: decryptions that hit no layer, pad]
           calls,     \* history of decrypt calls
           blame      \* deviations that changed this behaviour
-vars == <<cfg, upw, opw, tried, item, phase, handler, pwb, key, outcome, perms, cur, val, calls, blame>>
+vars == <<cfg, Dev, upw, opw, tried, item, phase, handler, pwb, key, outcome, perms, cur, val, calls, blame>>
 
 ObjStmId == 30      \* object stream container / cross-reference stream / Encrypt dictionary object numbers
 XRefId   == 31      \* (the realiser uses the same numbers)
@@ -142,6 +145,7 @@ NoCur == [n |-> 0, g |-> 0, stream |-> FALSE, type |-> "-", hasdec |-> FALSE, si
 
 Init ==
   /\ cfg \in Configs
+  /\ Dev \in DevSets
   /\ \E pp \in PwPairs : upw = pp[1] /\ opw = pp[2]
   /\ tried \in Tried
   /\ item \in ItemsOf(cfg)
@@ -152,7 +156,7 @@ Init ==
   /\ calls = <<>> /\ blame = {}
 
 Fail(exc, d) == /\ outcome' = exc /\ phase' = "done" /\ blame' = blame \cup d
-                /\ UNCHANGED <<cfg, upw, opw, tried, item, handler, pwb, key, perms, cur, val, calls>>
+                /\ UNCHANGED <<cfg, Dev, upw, opw, tried, item, handler, pwb, key, perms, cur, val, calls>>
 
 \* _initialize_password: registry lookup by V, supported_revisions, init_params
 ASelectHandler ==
@@ -163,7 +167,7 @@ ASelectHandler ==
         ELSE IF cfg.cfm = "IdentityDefault" /\ "ImplicitIdentityKeyError" \in Dev
         THEN Fail("KeyError", {"ImplicitIdentityKeyError"})          \* self.param["StmF"]
         ELSE /\ handler' = h /\ phase' = "encode"
-             /\ UNCHANGED <<cfg, upw, opw, tried, item, pwb, key, outcome, perms, cur, val, calls, blame>>
+             /\ UNCHANGED <<cfg, Dev, upw, opw, tried, item, pwb, key, outcome, perms, cur, val, calls, blame>>
 
 \* authenticate(): password.encode("latin1")  /  _normalize_password (saslprep for R6, utf-8, [:127])
 AEncodePassword ==
@@ -177,7 +181,7 @@ AEncodePassword ==
      THEN Fail("IndexError", {"SaslprepEmptyIndexError"})
      ELSE /\ pwb' = p
           /\ phase' = IF p = "BAD" THEN "reject" ELSE IF handler = "V5" THEN "auth_owner5" ELSE "auth_user"
-          /\ UNCHANGED <<cfg, upw, opw, tried, item, handler, key, outcome, perms, cur, val, calls, blame>>
+          /\ UNCHANGED <<cfg, Dev, upw, opw, tried, item, handler, key, outcome, perms, cur, val, calls, blame>>
 
 \* what the reader reads back from the Encrypt dictionary
 RdNB == IF cfg.R = 2 THEN 5 ELSE (IF handler = "V4" THEN 128 ELSE cfg.keylen) \div 8   \* V4.init_params: length = 128
@@ -186,7 +190,7 @@ TryUser(p) == LET k == Key234(cfg.R, p, StoredO(cfg), cfg.perms, IdTerm(cfg), Rd
               IN IF UOf(cfg.R, k, IdTerm(cfg)) = StoredU(cfg) THEN k ELSE NoKey               \* verify_encryption_key
 
 Goto(ph, k) == /\ phase' = ph /\ key' = k
-               /\ UNCHANGED <<cfg, upw, opw, tried, item, handler, pwb, outcome, perms, cur, val, calls, blame>>
+               /\ UNCHANGED <<cfg, Dev, upw, opw, tried, item, handler, pwb, outcome, perms, cur, val, calls, blame>>
 
 \* PDFStandardSecurityHandler.authenticate: user first ...
 AAuthUser ==
@@ -217,12 +221,12 @@ AAuthUser5 ==
 \* init_key: key is None -> raise PDFPasswordIncorrect
 AReject == /\ phase = "reject"
            /\ outcome' = "PDFPasswordIncorrect" /\ phase' = "done"
-           /\ UNCHANGED <<cfg, upw, opw, tried, item, handler, pwb, key, perms, cur, val, calls, blame>>
+           /\ UNCHANGED <<cfg, Dev, upw, opw, tried, item, handler, pwb, key, perms, cur, val, calls, blame>>
 
 \* _initialize_password: self.decipher = handler.decrypt; is_printable/modifiable/extractable from P
 AOpen == /\ phase = "open"
          /\ outcome' = "opened" /\ perms' = cfg.perms /\ phase' = "fetch"
-         /\ UNCHANGED <<cfg, upw, opw, tried, item, handler, pwb, key, cur, val, calls, blame>>
+         /\ UNCHANGED <<cfg, Dev, upw, opw, tried, item, handler, pwb, key, cur, val, calls, blame>>
 
 (* ---- handler.decrypt(objid, genno, data, attrs) ---- *)
 CodeAlg(isStreamCall, ty) ==
@@ -250,7 +254,7 @@ Target == IF item.loc = "objstm"
                 type |-> item.type]
 
 Step(ph) == /\ phase' = ph
-            /\ UNCHANGED <<cfg, upw, opw, tried, item, handler, pwb, key, outcome, perms>>
+            /\ UNCHANGED <<cfg, Dev, upw, opw, tried, item, handler, pwb, key, outcome, perms>>
 
 \* trailer dictionaries were read by read_xref_from before any handler existed and are never deciphered
 AObserveTrailer == /\ phase = "fetch" /\ item.loc = "trailer"
@@ -333,7 +337,7 @@ AuthExcuse ==
 ItemExcuse ==
   \/ blame = {"AESKeepsPadding"} /\ val.enc = <<>> /\ val.spur = 0 /\ val.pad
   \/ blame = {"StreamDictNotDeciphered"} /\ LayerCount(val) = 1 /\ val.spur = 0 /\ ~val.pad
-BlameSound == blame \subseteq Dev
+BlameSound == blame \subseteq Dev          \* in particular: the intended design (Dev = {}) needs no excuse at all
 
 \* every observed item of the original is plaintext: layer count 0, never +1 (left encrypted), never -1 (decrypted
 \* again: object-stream content, trailer), and nothing else is left behind (padding)
@@ -355,7 +359,7 @@ DecodeAfterSetObjid == phase = "filters" => cur.sid = <<cur.n, cur.g>>
 \* fetched does not depend on the item: it is printed once, for the canonical item every configuration contains)
 CanonicalItem(it) == it.loc = "direct" /\ it.n = 10 /\ it.len = 5 /\ it.nest = 0
 EmitTerminal ==
-  Done /\ (Opened \/ CanonicalItem(item)) => PrintT("@@" \o ToJson([c |-> cfg, u |-> upw, o |-> opw, t |-> tried, it |-> item, out |-> outcome,
+  Done /\ Dev = CodedDev /\ (Opened \/ CanonicalItem(item)) => PrintT("@@" \o ToJson([c |-> cfg, u |-> upw, o |-> opw, t |-> tried, it |-> item, out |-> outcome,
                                   pr |-> perms, enc |-> Len(val.enc), spur |-> val.spur, pad |-> val.pad,
                                   bl |-> blame, nc |-> Len(calls), ro |-> RefOpens]))
 =============================================================================
